@@ -9,7 +9,7 @@ import lib
 
 MANIFEST = {
  "category": "proof",
- "text": "Coq theorems C15_equiv_sound / C15_equiv_complete: for ALL pairs of compiled programs (any size, any nesting of pipelines, no bound) the model of Ast.EquivalentCall (K/Equiv.v: CallStm/Pipeline/Stage.EquivalentTo, BindStms.Equals, Modifiers.EquivalentTo, In/OutParams.Equals, Exp.equal incl. an exact model of the float64 tolerance arithmetic) accepts the pair iff their normal forms have the same content, where norm erases exactly formatting/comments/include structure (not in the Ast), file-type names, the callable name behind an alias, volatile/help/src/resources/retain, and keeps call names, argument values, parameter names and types, split flag, return bindings, local/preflight and the disabled binding. C15_lock_exclusion: in every interleaving of lock events, an instance whose check follows another instance's lock write is refused and never holds the pipestance; read-only attach is always admitted. The model is tied to /repo on every run: modifier name, wildcard id and the tolerance literal are regenerated from the Go AST; EquivalentCall (both directions) is compared with the model on Asts dumped from martian's own compiler for generated program pairs (original, one edit from a catalogue of ~60 cosmetic/semantic/unclassified edits at a random site of the transitive closure) and Exp.equal on thousands of literal pairs dense around the tolerance and 2^53; a kernel vm_compute sample; and the property is read directly on the implementation (cosmetic edit accepted, semantic edit refused). When implementation and model disagree on a case, a property-level failing input is searched: complete program pairs are built from the disagreeing cases (a literal becomes a stage argument in a library pipeline) and the property is decided on the implementation alone (meaning = martian's resolved call graph, decision = EquivalentCall as called by reattachToPipestance). Thorough: real mrp start/attach sequences (edited library, second instance against a live lock, --inspect).",
+ "text": "Coq theorems C15_equiv_sound / C15_equiv_complete: for ALL pairs of compiled programs (any size, any nesting of pipelines, no bound) the model of Ast.EquivalentCall (K/Equiv.v: CallStm/Pipeline/Stage.EquivalentTo, BindStms.Equals, Modifiers.EquivalentTo, In/OutParams.Equals, Exp.equal incl. an exact model of the float64 tolerance arithmetic) accepts the pair iff their normal forms have the same content, where norm erases exactly formatting/comments/include structure (not in the Ast), file-type names, the callable name behind an alias, volatile/help/src/resources/retain, and keeps call names, argument values, parameter names and types, split flag, return bindings, local/preflight and the disabled binding. C15_lock_exclusion: in every interleaving of lock events, an instance whose check follows another instance's lock write is refused and never holds the pipestance; read-only attach is always admitted. The model is tied to /repo on every run: modifier name, wildcard id and the tolerance literal are regenerated from the Go AST; EquivalentCall (both directions) is compared with the model on Asts dumped from martian's own compiler for generated program pairs (original, one edit from a catalogue of ~60 cosmetic/semantic/unclassified edits at a random site of the transitive closure) and Exp.equal on thousands of literal pairs dense around the tolerance and 2^53; a kernel vm_compute sample; and the property is read directly on the implementation (cosmetic edit accepted, semantic edit refused). When implementation and model disagree on a case, a property-level failing input is searched: complete program pairs are built from the disagreeing cases (a literal becomes a stage argument in a library pipeline) and the property is decided on the implementation alone (meaning = martian's resolved call graph, decision = EquivalentCall as called by reattachToPipestance). Real mrp start/attach sequences (edited library, second instance against a live lock, --inspect admitted, --inspect refused leaving the live lock).",
  "note": "Trusted: Coq kernel; extraction cross-checked in-kernel on a sample; extractconsts; astdump (walks exported fields of syntax.Ast). Hypotheses wf_ast (distinct names, bindings cover the callee's parameters - evaluated on every dumped Ast) and existence of the normal form (evaluated on every pair). Guards, each a recorded known finding with a refutation theorem: float literals within the 1e-15 relative tolerance compare equal (C15_float_tolerance_refuted); struct types are compared by name only (C15_struct_member_refuted). Not modelled: the byte comparison of the invocation file with _invocation that precedes the Ast comparison (exercised end to end; it refuses even a reformatted invocation file), the TOCTOU window between lock check and lock write (C15_lock_toctou, outside the statement), MergeExp/DisabledExp/RefExp.Forks (do not occur in a compiled Ast).",
  "technique": "Coq proof (induction on fuel over the call tree, nested induction on expressions, pigeonhole on duplicate-free name lists) + differential correspondence on compiler-dumped Asts + edit-catalogue oracle",
 }
@@ -95,9 +95,8 @@ def check(ctx, args):
             ctx.fail(f[1], f[2][:400], {"edit": cf[2], "class": cf[1], "original": src_a, "edited": src_b,
                                          "observed": f[2],
                                          "how": "compile both with martian, newAst.EquivalentCall(oldAst) as in Runtime.reattachToPipestance; replay: echo <case line> | vh c15 oracle"})
-    # -- thorough: real mrp runs
-    if ctx.tier == "thorough":
-        e2e(ctx)
+    # -- real mrp runs
+    e2e(ctx)
     kinds, edits = {}, {}
     for c in case_lines:
         f = c.split(" ", 3)
